@@ -12,6 +12,9 @@ TIE = ("Search side additionally tied by TRANSLATION: tools/rs2lean.py re-transl
        "all iterator next() functions and all entry points into Lean on every run (Daac/Gen/SearchB.lean, SearchC.lean) and Daac/Props/Tie.lean proves the "
        "generated definitions equal to the model and, composed with Rung 2, that the translated search code on a model-built table returns the specification "
        "on every haystack; a change to those functions breaks a proof obligation at lake build whether or not a generated input exercises it. ")
+TIE_SER = ("Serialisation code additionally tied by TRANSLATION: tools/ser2lean.py re-translates every Serializable / SerializableVec impl (incl. the body of define_serializable_primitive! and the table of its invocations), "
+           "serialize and deserialize_unchecked of both automata into Lean on every run (Daac/Gen/Serial.lean); Daac/Proofs/TieS.lean proves the translated entry points equal to the model's serialize / deserialize on every automaton value and every byte string, "
+           "and Daac/Props/TieSer.lean that the translated code round-trips every well-formed automaton (in particular every model-built one) with arbitrary trailing bytes and that the reserved capacity is exact; a change to that code breaks a proof obligation at lake build whether or not a generated input exercises it. ")
 R2 = 'Rung 2 (proved end to end in the model of the builder, Proofs/Rung2.lean): for EVERY valid collection and every num_free_blocks, buildDA = ok da implies the result below, through kernel-checked theorems for insertion, fail links/outputs ((F),(G1),(G3) for the leftmost kinds), the ring-buffer helper, BASE uniqueness and CHECK sanitising of the byte-wise layout (incl. the pigeonhole for full blocks) and the char-wise layout; the model builder is tied to the code by K-build (byte-identical tables, evicted blocks included). Totality (the model builder never panics, returns Ok or a documented error kind) is proved too. What is not proved is anything about the Rust code itself: the model is tied to it by the correspondence suites only. '
 TEXT = {
  'C01': RUNG1 + R2 + "Theorem: any tables satisfying the decidable invariants tableInv+sizeInv for a valid pattern list return, for EVERY haystack, exactly specOverlapping (= exactly the occurrences, no repeats, end-ascending then longest-first: proved of the spec). Byte-wise at byte level; char-wise at byte level on valid UTF-8 via the self-synchronisation proof (Props/C08). The invariants are evaluated by compiled Lean on the tables the implementation actually built, for every generated automaton (all nodes x all 256 labels / all mapped codes + unmapped), every num_free_blocks, both entry points. Additionally (Rung 1) the invariants are evaluated on the implementation's own tables, so for every automaton a run builds the all-haystacks conclusion holds without any model of the builder.",
@@ -45,10 +48,10 @@ for pid in sorted(PROPS):
         'evidence_file': f'/verif/evidence/{pid}.json',
         'replay_cmd_template': f'./check {pid} --replay {{path}}',
         'engine': 'lean-proof',
-        'level_claimed': {'category': 'proof', 'text': TEXT[pid] + (' ' + TIE if PROPS[pid].get('tie_defs') else ''), 'design_ref': 'DESIGN.md §6 ' + pid},
+        'level_claimed': {'category': 'proof', 'text': TEXT[pid] + (' ' + (TIE_SER if pid == 'C09' else TIE) if PROPS[pid].get('tie_defs') else ''), 'design_ref': 'DESIGN.md §6 ' + pid},
         'level_note': NOTE,
         'technique': 'Lean 4 theorems over a hand-written executable model + differential correspondence check against the real crate + invariants evaluated on the real tables'
-                     + (' + Rust-to-Lean translation of the search-side functions with kernel-checked equalities generated = model' if PROPS[pid].get('tie_defs') else ''),
+                     + ((' + Rust-to-Lean translation of the serialisation code with kernel-checked equalities generated = model' if pid == 'C09' else ' + Rust-to-Lean translation of the search-side functions with kernel-checked equalities generated = model') if PROPS[pid].get('tie_defs') else ''),
     })
 m = {
  'version': 1,
@@ -60,7 +63,7 @@ m = {
  'engines': [
    {'name': 'lean-proof', 'path': 'lean/', 'serves_properties': sorted(TEXT), 'kind_free_text': 'Lean 4 model, specification, invariants, proofs, property theorems; compiled driver (Main.lean)'},
    {'name': 'harness', 'path': 'harness/', 'serves_properties': sorted(TEXT), 'kind_free_text': 'Rust differential harness calling the real crate in-process with hooks; line protocol (PROTOCOL.md)'},
-   {'name': 'tools', 'path': 'tools/', 'serves_properties': sorted(TEXT), 'kind_free_text': 'constants translator, Rust-to-Lean translator for the search side (rs2lean.py), source scans, per-property configuration, CLI suite, setup'},
+   {'name': 'tools', 'path': 'tools/', 'serves_properties': sorted(TEXT), 'kind_free_text': 'constants translator, Rust-to-Lean translators (rs2lean.py: search side, build helper, layout primitives; ser2lean.py: serialisation), source scans, per-property configuration, CLI suite, setup'},
  ],
  'checks': checks,
  'not_applicable': [],
